@@ -6,6 +6,21 @@ props = [json.loads(l) for l in open(os.path.join(V, "properties.jsonl"))]
 
 # id -> (level, technique, level text, level note, design ref)
 CLAIMED = {
+ "C01": ("exploration", "deterministic simulation: seeded schedules of 2-4 threads racing load/get_cached/get_or_insert/contains on hot keys with filler bursts (rehash), shard/hash/lock-policy knobs; pointer identity, drop ledger, linearizability against an insert-once slot",
+         "Seeded search over interleavings (random, sticky, PCT) of racing loaders and inserters on 1-3 hot keys x 3 kinds of types with unrelated insertion bursts, on 1..256 shards (incl. non-power-of-two counts), through AssetCache and AnyCache; every source read is a scheduling point so several loaders are past the miss before any inserts. Oracles: same address for every handle of a key, one winner observed by all, losers dropped, stored value never dropped while reachable (ledger), per-key history linearizable against an insert-once slot, handles re-read after bursts, remove/take/clear between phases. Sampling, not proof.",
+         "Shard RwLocks are simulator models; memory errors proper (use after free) are only seen as crashes of the worker process, which are confirmed and minimised in fresh processes.", "DESIGN.md §7 C01"),
+ "C05": ("exploration", "deterministic simulation: edits + notification faults (batched, duplicated, other thread, noise, never sent) + barriers against an executable model; plain (hot_reload) and static (enhance_hot_reloading + quiescence) modes",
+         "Seeded search over edit/notification histories and schedules of caller, notifier and reloader threads; after every barrier each cached asset whose entries were notified must equal a fresh load from the current source, failed reloads keep the old value and recover later, un-notified edits change nothing. Sampling, not proof.",
+         "Channels, locks and the condvar mailbox are simulator models; the source is in-memory.", "DESIGN.md §7 C05"),
+ "C08": ("exploration", "deterministic simulation: 1-4 concurrent hot_reload callers x loader threads x notification bursts x cyclic look-up graphs under all wake orders and spurious wake-ups; deadlock / step-budget / crash detection and call-to-pass matching",
+         "Seeded search over schedules of concurrent hot_reload callers, loaders and notifiers, with spurious condvar wake-ups and random wake orders, over dependency shapes including mutual and self look-ups. Liveness as bounded progress (deadlock = no runnable thread, with wait-for picture; step budget with fair second half); a dying worker process is confirmed and minimised in fresh processes; every call is matched injectively to an update pass that ended inside it. Sampling, not proof.",
+         "Mutex/Condvar/channel/Select are simulator models of the std / parking_lot / crossbeam contracts.", "DESIGN.md §7 C08"),
+ "C09": ("fault_enumeration", "deterministic simulation with exhaustive fault positions per sampled scenario: every source read index x 4 io error kinds and every loader invocation x {Err, panic}, on caller threads and on the reloader thread",
+         "For each sampled scenario (nested compounds, load / load_owned / get_or_insert / edit / hot_reload) a fault-free dry run counts reads and loader invocations, then the scenario is re-run once per fault position. Oracles: error names the requested id, nothing cached by a failed call, cached values and reload ids untouched, no partially built value alive (ledger), the thread-local recorder restored (hook H7) on return and on unwind, reloads are all-or-nothing, and after repair + notification + hot_reload the cache equals the fault-free final state. Scenarios and schedules are sampled.",
+         "Fault positions are exhaustive only within each sampled scenario.", "DESIGN.md §7 C09"),
+ "C15": ("exploration", "deterministic simulation: create/use/drop histories of 1-4 caches over a custom source, dropped idle / after hot_reload / with queued events; quiescence observation of the reloader threads",
+         "Seeded search over create/use/drop sequences and schedules; after every drop and in every quiet period the simulator waits for global quiescence: a reloader that keeps taking scheduling points is reported as a spin with the thread states; late notifications after the drop are injected too. Sampling, not proof.",
+         "'No CPU' is modelled as 'blocked in the simulator'; Select::ready on a disconnected channel follows crossbeam's documented behaviour (always ready).", "DESIGN.md §7 C15"),
  "C16": ("exploration", "deterministic simulation: seeded schedules of clone/read/move/drop across threads (detsim, accounting allocator) + Miri seeded scheduler (UB, data race, leak oracle)",
          "Seeded search over interleavings of 2-4 threads cloning, reading, moving and dropping clones of one buffer built through every constructor path, with scheduling points in front of the refcount operations; oracles: byte-exact content through every clone, accounting allocator (every block freed once with the layout it was allocated with, nothing live at the end). The Miri engine runs the same kernel on real atomics with UB/data-race/leak detection. Sampling, not proof.",
          "Engine A is sequentially consistent; wrong memory orderings are only visible to Miri. UTF-8/Eq/Ord/Hash clauses are pure functions of generated data (exercised, not decided by scheduling).", "DESIGN.md §7 C16"),
